@@ -1,18 +1,20 @@
 #!/usr/bin/env python3
-"""Rewrite the `assumed` list of ApiShape.v from the probe's output for the given repository (default /repo):
-   python3 coq/apishape/regen_assumed.py [repo]
+"""Rewrite the `assumed` list of one shape file from the probe's output for the given repository (default /repo):
+   python3 coq/apishape/regen_assumed.py [repo] [api|readers|attempts]      (default set: api -> ApiShape.v)
 Only for deliberate re-transcription after a reviewed change of Start/runPlan/Wait; the order lemmas below the
 list are NOT regenerated and must still check (make)."""
 import json, os, re, subprocess, sys, tempfile
 here = os.path.dirname(os.path.abspath(__file__))
 root = os.path.dirname(os.path.dirname(here))
 repo = sys.argv[1] if len(sys.argv) > 1 else "/repo"
+setname = sys.argv[2] if len(sys.argv) > 2 else "api"
+fname = dict(api="ApiShape.v", readers="ReaderShape.v", attempts="RunShape.v")[setname]
 env = dict(os.environ, GOFLAGS="-mod=mod", GOPROXY="off", GOSUMDB="off", GOTOOLCHAIN="local")
 out = tempfile.mktemp(suffix=".json")
-subprocess.check_call(["go1.26", "run", "./cmd/limiterprobe", "-set", "api", "-repo", repo, "-out", out],
+subprocess.check_call(["go1.26", "run", "./cmd/limiterprobe", "-set", setname, "-repo", repo, "-out", out],
                       cwd=os.path.join(root, "harness"), env=env)
 d = json.load(open(out))
-p = os.path.join(here, "ApiShape.v")
+p = os.path.join(here, fname)
 src = open(p).read()
 i = src.index("Definition assumed")
 j = src.index("(* ------", i)
